@@ -18,6 +18,7 @@ Proof.
 Qed.
 
 Section Fuel.
+Variable cfg : config.
 Variable C : callees.
 Variable k : kind.
 
@@ -162,7 +163,7 @@ Proof.
     + repeat split; try discriminate. intros i' b' H. injection H as _ <-. lia.
 Qed.
 
-Lemma parse_headers_done le h b h' b' : parse_headers le h b = Done h' b' -> (length b' < length b)%nat.
+Lemma parse_headers_done le h b h' b' : parse_headers cfg le h b = Done h' b' -> (length b' < length b)%nat.
 Proof.
   unfold parse_headers. intros H.
   destruct (prefixb (le_bytes le) b) eqn:P.
@@ -173,7 +174,7 @@ Proof.
     + repeat dmatch; discriminate.
 Qed.
 
-Lemma parse_headers_nofuel le h b e : parse_headers le h b = Fail e -> e <> EFuel.
+Lemma parse_headers_nofuel le h b e : parse_headers cfg le h b = Fail e -> e <> EFuel.
 Proof. unfold parse_headers. intros H. repeat dmatch; try congruence; injection H as <-; congruence. Qed.
 
 Lemma on_headers_complete_props i i' : on_headers_complete C k i = inl i' ->
@@ -183,7 +184,7 @@ Proof. unfold on_headers_complete. intros H. repeat dmatch; try congruence; inje
 Lemma on_headers_complete_nofuel i e : on_headers_complete C k i = inr e -> e <> EFuel.
 Proof. unfold on_headers_complete. intros H. repeat dmatch; try congruence; injection H as <-; congruence. Qed.
 
-Lemma on_body_complete_nofuel v i b e : on_body_complete C k v i b = inr e -> e <> EFuel.
+Lemma on_body_complete_nofuel i b e : on_body_complete cfg C k i b = inr e -> e <> EFuel.
 Proof.
   unfold on_body_complete. intros H.
   repeat dmatch; try congruence; try (injection H as <-; congruence);
@@ -193,7 +194,7 @@ Qed.
 (* one turn of the loop, from a well-formed state whose buffer is [b]:
    - an error is never EFuel;  - a completed message consumed at least [d] octets;  - a blocked state is well formed *)
 Lemma after_headers_pending i b : body_pending i -> i_phase i = PBody ->
-  match after_headers C k i b with
+  match after_headers cfg C k i b with
   | TErr e => e <> EFuel
   | TMsg s' _ => (length (buf s') < length b)%nat /\ wf_state s'
   | TBlocked s' => wf_state s'
@@ -202,14 +203,14 @@ Proof.
   intros Hp Hph. unfold after_headers. destruct (parse_body_ok i b Hp Hph) as (A & B & D).
   destruct (parse_body C i b) as [i' b'|i' b'|e] eqn:E.
   - unfold wf_state; cbn. intros _. eapply D; eauto.
-  - destruct (on_body_complete C k true i' b') eqn:O.
+  - destruct (on_body_complete cfg C k i' b') eqn:O.
     + split; [eapply B; eauto | exact I].
     + eapply on_body_complete_nofuel; eauto.
   - eapply A; eauto.
 Qed.
 
 Lemma after_headers_fresh i b : i_len i = None -> i_chunked i = false ->
-  match after_headers C k i b with
+  match after_headers cfg C k i b with
   | TErr e => e <> EFuel
   | TMsg s' _ => (length (buf s') <= length b)%nat /\ wf_state s'
   | TBlocked s' => wf_state s'
@@ -218,7 +219,7 @@ Proof.
   intros Hl Hc. unfold after_headers. destruct (parse_body_fresh i b Hl Hc) as (A & B & D).
   destruct (parse_body C i b) as [i' b'|i' b'|e] eqn:E.
   - unfold wf_state; cbn. intros _. eapply D; eauto.
-  - destruct (on_body_complete C k true i' b') eqn:O.
+  - destruct (on_body_complete cfg C k i' b') eqn:O.
     + split; [eapply B; eauto | exact I].
     + eapply on_body_complete_nofuel; eauto.
   - eapply A; eauto.
@@ -263,7 +264,7 @@ Definition wf_st (s : pstate) : Prop := match cur s with Some i => wf_inflight i
 
 Lemma after_headers_ok i b : i_phase i = PBody ->
   (body_pending i \/ (i_len i = None /\ i_chunked i = false)) ->
-  match after_headers C k i b with
+  match after_headers cfg C k i b with
   | TErr e => e <> EFuel
   | TMsg s' _ => (length (buf s') <= length b)%nat /\ (body_pending i -> (length (buf s') < length b)%nat) /\ wf_st s'
   | TBlocked s' => wf_st s'
@@ -282,14 +283,14 @@ Proof.
   destruct Hall as (A & B & D).
   destruct (parse_body C i b) as [i' b'|i' b'|e] eqn:E.
   - unfold wf_st, wf_inflight; cbn. rewrite (parse_body_phase _ _ _ _ E), Hph. eapply D; eauto.
-  - destruct (on_body_complete C k true i' b') eqn:O.
+  - destruct (on_body_complete cfg C k i' b') eqn:O.
     + destruct (B _ _ eq_refl) as [B1 B2]. repeat split; auto.
     + eapply on_body_complete_nofuel; eauto.
   - eapply A; eauto.
 Qed.
 
 Lemma after_startline_ok i b : wf_inflight i ->
-  match after_startline C k i b with
+  match after_startline cfg C k i b with
   | TErr e => e <> EFuel
   | TMsg s' _ => (length (buf s') < length b)%nat /\ wf_st s'
   | TBlocked s' => wf_st s'
@@ -297,23 +298,23 @@ Lemma after_startline_ok i b : wf_inflight i ->
 Proof.
   unfold wf_inflight, after_startline. destruct (i_phase i) eqn:Ph; intros Hw.
   - destruct Hw as [Hl Hc].
-    destruct (parse_headers (i_le i) (i_hdrs i) b) as [h b'|h b'|e] eqn:PH.
+    destruct (parse_headers cfg (i_le i) (i_hdrs i) b) as [h b'|h b'|e] eqn:PH.
     + unfold wf_st, wf_inflight; cbn. rewrite Ph. auto.
     + pose proof (parse_headers_done _ _ _ _ _ PH) as Hlen.
       destruct (on_headers_complete C k _) as [i1|e1] eqn:O; [|eapply on_headers_complete_nofuel; eauto].
       apply on_headers_complete_props in O as (P1 & P2 & P3). cbn in P1, P2, P3.
       pose proof (after_headers_ok i1 b' P1 (or_intror (conj (eq_trans P2 Hl) (eq_trans P3 Hc)))) as AF.
-      destruct (after_headers C k i1 b') as [s'|s' m|e]; auto.
+      destruct (after_headers cfg C k i1 b') as [s'|s' m|e]; auto.
       destruct AF as (A1 & _ & A3). split; [lia | exact A3].
     + eapply parse_headers_nofuel; eauto.
   - assert (Hp : body_pending i) by (intros _; exact Hw).
     pose proof (after_headers_ok i b Ph (or_introl Hp)) as AF.
-    destruct (after_headers C k i b) as [s'|s' m|e]; auto.
+    destruct (after_headers cfg C k i b) as [s'|s' m|e]; auto.
     destruct AF as (_ & A2 & A3). split; [apply A2, Hp | exact A3].
 Qed.
 
 Lemma turn_ok s : wf_st s ->
-  match turn_of C k s with
+  match turn_of cfg C k s with
   | TErr e => e <> EFuel
   | TMsg s' _ => (length (buf s') < length (buf s))%nat /\ wf_st s'
   | TBlocked s' => wf_st s'
@@ -322,11 +323,11 @@ Proof.
   unfold wf_st at 1, turn_of. destruct (cur s) as [i|] eqn:Cu; intros Hw.
   - apply after_startline_ok, Hw.
   - unfold parse_startline.
-    destruct (if contains CRLF (buf s) then Some LE_CRLF else if contains [LF] (buf s) then Some LE_LF else None) as [le|] eqn:Ele.
+    destruct (if contains CRLF (buf s) then Some LE_CRLF else if allow_lf cfg && contains [LF] (buf s) then Some LE_LF else None) as [le|] eqn:Ele.
     2:{ unfold wf_st. rewrite Cu. exact I. }
     assert (Hc : contains (le_bytes le) (buf s) = true).
     { destruct (contains CRLF (buf s)) eqn:E1; [injection Ele as <-; exact E1|].
-      destruct (contains [LF] (buf s)) eqn:E2; [injection Ele as <-; exact E2 | discriminate]. }
+      destruct (allow_lf cfg && contains [LF] (buf s)) eqn:E2; [injection Ele as <-; apply andb_true_iff in E2 as [_ E2]; exact E2 | discriminate]. }
     unfold contains in Hc. destruct (cut (le_bytes le) (buf s)) as [[line rest]|] eqn:Cut; [|discriminate].
     pose proof (cut_rest_shorter _ _ _ _ (le_bytes_nonnil le) Cut) as Hlen.
     destruct (c_start C line) as [info|c| |]; try congruence.
@@ -334,24 +335,24 @@ Proof.
                   i_len := None; i_chunked := false; i_trailer := false; i_body := [] |}).
     assert (W0 : wf_inflight i0) by (unfold wf_inflight; cbn; auto).
     pose proof (after_startline_ok i0 rest W0) as AS.
-    destruct (after_startline C k i0 rest) as [s'|s' m|e]; auto.
+    destruct (after_startline cfg C k i0 rest) as [s'|s' m|e]; auto.
     destruct AS as [A1 A2]. split; [lia | exact A2].
 Qed.
 
 Lemma loop_ok fuel : forall s acc, wf_st s -> (length (buf s) < fuel)%nat ->
-  match loop C k fuel s acc with (s', _, oe) => oe <> Some EFuel /\ wf_st s' end.
+  match loop cfg C k fuel s acc with (s', _, oe) => oe <> Some EFuel /\ wf_st s' end.
 Proof.
   induction fuel as [|f IH]; intros s acc Hw Hf; [lia|].
   cbn [loop]. destruct (buf s) eqn:B; [split; [discriminate | exact Hw]|].
-  pose proof (turn_ok s Hw) as T. destruct (turn_of C k s) as [s'|s' m|e].
+  pose proof (turn_ok s Hw) as T. destruct (turn_of cfg C k s) as [s'|s' m|e].
   - split; [discriminate | exact T].
   - destruct T as [T1 T2]. apply IH; [exact T2 | rewrite B in T1; cbn [length] in *; lia].
-  - split; [congruence | exact Hw].
+  - split; [congruence | exact I].
 Qed.
 
 (* every parse() call: fuel suffices, and the invariant is kept; hence for every fragmentation *)
 Theorem parse_fuel_ok s data : wf_st s ->
-  match parse C k s data with (s', _, oe) => oe <> Some EFuel /\ wf_st s' end.
+  match parse cfg C k s data with (s', _, oe) => oe <> Some EFuel /\ wf_st s' end.
 Proof.
   intros Hw. unfold parse. apply loop_ok; [exact Hw | cbn; lia].
 Qed.
@@ -360,7 +361,7 @@ Fixpoint feed_all (s : pstate) (frags : list bytes) : pstate * list (list msg) *
   match frags with
   | [] => (s, [], None)
   | f :: fr =>
-      match parse C k s f with
+      match parse cfg C k s f with
       | (s', ms, None) => match feed_all s' fr with (s2, mss, oe) => (s2, ms :: mss, oe) end
       | (s', ms, Some e) => (s', [ms], Some e)
       end
@@ -370,7 +371,7 @@ Theorem feed_all_never_out_of_fuel frags : forall s, wf_st s ->
   match feed_all s frags with (_, _, oe) => oe <> Some EFuel end.
 Proof.
   induction frags as [|f fr IH]; intros s Hw; cbn [feed_all]; [discriminate|].
-  pose proof (parse_fuel_ok s f Hw) as P. destruct (parse C k s f) as [[s' ms] [e|]].
+  pose proof (parse_fuel_ok s f Hw) as P. destruct (parse cfg C k s f) as [[s' ms] [e|]].
   - exact (proj1 P).
   - specialize (IH s' (proj2 P)). destruct (feed_all s' fr) as [[s2 mss] oe]. exact IH.
 Qed.
